@@ -89,6 +89,34 @@ def remove_scratch(name):
     shutil.rmtree(os.path.join(SCRATCH_ROOT, name), ignore_errors=True)
 
 
+_LIVE = set()
+
+
+def _reap(*_a):
+    import signal
+    for pid in list(_LIVE):
+        try:
+            os.killpg(pid, signal.SIGKILL)
+        except OSError:
+            pass
+    _LIVE.clear()
+    if _a:
+        os._exit(143)
+
+
+def _install_reaper():
+    import atexit, signal, threading
+    atexit.register(_reap)
+    if threading.current_thread() is threading.main_thread():
+        try:
+            signal.signal(signal.SIGTERM, _reap)
+        except (ValueError, OSError):
+            pass
+
+
+_install_reaper()
+
+
 def run(cmd, cwd=None, env=None, timeout=None, mem_kb=None, stdout=subprocess.PIPE):
     e = dict(os.environ)
     e.update(OFFLINE_ENV)
@@ -101,15 +129,32 @@ def run(cmd, cwd=None, env=None, timeout=None, mem_kb=None, stdout=subprocess.PI
         def pre():
             resource.setrlimit(resource.RLIMIT_AS, (mem_kb * 1024, mem_kb * 1024))
     t0 = time.time()
+    # own session: on timeout the whole process group goes (cargo-kani -> kani-driver -> cbmc would otherwise outlive the check)
+    p = subprocess.Popen(cmd, cwd=cwd, env=e, stdout=stdout, stderr=subprocess.STDOUT, preexec_fn=pre, text=True, errors='replace',
+                         start_new_session=True)
+    _LIVE.add(p.pid)
     try:
-        p = subprocess.run(cmd, cwd=cwd, env=e, stdout=stdout, stderr=subprocess.STDOUT, timeout=timeout,
-                           preexec_fn=pre, text=True, errors='replace')
-        return p.returncode, p.stdout or '', time.time() - t0
-    except subprocess.TimeoutExpired as ex:
-        out = ex.stdout
-        if isinstance(out, bytes):
-            out = out.decode(errors='replace')
+        out, _ = p.communicate(timeout=timeout)
+        _LIVE.discard(p.pid)
+        return p.returncode, out or '', time.time() - t0
+    except subprocess.TimeoutExpired:
+        import signal
+        try:
+            os.killpg(p.pid, signal.SIGKILL)
+        except OSError:
+            pass
+        try:
+            out, _ = p.communicate(timeout=30)
+        except Exception:
+            out = ''
         return -9, (out or '') + '\n[timeout]', time.time() - t0
+    except BaseException:
+        import signal
+        try:
+            os.killpg(p.pid, signal.SIGKILL)
+        except OSError:
+            pass
+        raise
 
 
 # ------------------------------------------------------------------ known findings
